@@ -18,12 +18,13 @@ import (
 )
 
 type childOut struct {
-	Histories  []histResult `json:"histories"`
-	LockOps    int64        `json:"lock_ops"`
-	Orders     int          `json:"distinct_lock_orders"`
-	Inversions []string     `json:"lock_order_inversions"`
-	Shimmed    []string     `json:"shimmed"`
-	WallMS     int64        `json:"wall_ms"`
+	Histories  []histResult   `json:"histories"`
+	LockOps    int64          `json:"lock_ops"`
+	Orders     int            `json:"distinct_lock_orders"`
+	Inversions []string       `json:"lock_order_inversions"`
+	Shimmed    []string       `json:"shimmed"`
+	WallMS     int64          `json:"wall_ms"`
+	Witness    map[string]any `json:"witness,omitempty"`
 }
 
 func c16Child() {
@@ -47,6 +48,12 @@ func c16Child() {
 		fail("ca: " + err.Error())
 	}
 	out := childOut{}
+	if mode == "witness" {
+		out.Witness = runStaleCacheWitness(pool, dir)
+		b, _ := json.Marshal(out)
+		_ = os.WriteFile(filepath.Join(dir, "result.json"), b, 0o644)
+		return
+	}
 	for _, f := range strings.Split(os.Getenv("VERIF_SHIMMED"), ",") {
 		if strings.Contains(f, "jwt_signer.go") || strings.Contains(f, "watcher_impl.go") {
 			out.Shimmed = append(out.Shimmed, filepath.Base(f))
@@ -138,24 +145,25 @@ func TestC16(t *testing.T) {
 	}
 	var jobs []job
 	nSigner, sBatch := r.Pick(200, 5000), r.Pick(20, 125)
-	nE2E, eBatch := r.Pick(10, 120), r.Pick(5, 12)
+	nE2E, eBatch := r.Pick(12, 120), r.Pick(4, 12)
 	// e2e first: they are the longest jobs
 	for f := 0; f < nE2E; f += eBatch {
 		jobs = append(jobs, job{"e2e", 500000 + f, min(eBatch, nE2E-f), 0})
 	}
 	if r.Thorough() {
 		for i := 0; i < 6; i++ {
-			jobs = append(jobs, job{"e2e", 700000 + i, 1, 2500})
+			jobs = append(jobs, job{"e2e", 700000 + i, 1, 500})
 		}
 		for i := 0; i < 6; i++ {
 			jobs = append(jobs, job{"signer", 800000 + i, 1, 600})
 		}
 	}
+	jobs = append(jobs, job{"witness", 0, 0, 0})
 	for f := 0; f < nSigner; f += sBatch {
 		jobs = append(jobs, job{"signer", f, min(sBatch, nSigner-f), 0})
 	}
 	var wg sync.WaitGroup
-	sem := make(chan struct{}, r.Pick(5, 6))
+	sem := make(chan struct{}, r.Pick(5, 8))
 	var mu sync.Mutex
 	shimmed := map[string]bool{}
 	unshimmed := false
@@ -198,6 +206,10 @@ func TestC16(t *testing.T) {
 				} else {
 					r.Inconclusive("child produced no result: " + tag)
 				}
+				return
+			}
+			if jb.mode == "witness" {
+				r.Set("side_observation_cached_token_after_key_rotation_with_same_kid", co.Witness)
 				return
 			}
 			for _, s := range co.Shimmed {
